@@ -349,6 +349,7 @@ func runC19(c *Ctx) {
 	c19served(c)
 	c.R.Set("registered", map[string]int{"regimes": len(tax.AllRegimeDefs()), "addons": len(tax.AllAddonDefs()), "catalogues": len(tax.AllCatalogueDefs())})
 	c.R.Exhaustive(true)
+	c.Require("files_compared:schemas", "files_compared:regimes", "served_files_compared")
 }
 
 func asList(v any) []any {
